@@ -115,9 +115,11 @@ func (s *sliceReader) ScanRange(lo, hi []byte) (sstables.SSTableIteratorI, error
 	}
 	return s.iter(i, j), nil
 }
-func (s *sliceReader) Close() error               { return nil }
-func (s *sliceReader) MetaData() *proto.MetaData { return &proto.MetaData{NumRecords: uint64(len(s.ps))} }
-func (s *sliceReader) BasePath() string           { return "slice" }
+func (s *sliceReader) Close() error { return nil }
+func (s *sliceReader) MetaData() *proto.MetaData {
+	return &proto.MetaData{NumRecords: uint64(len(s.ps))}
+}
+func (s *sliceReader) BasePath() string { return "slice" }
 
 type sliceIt struct {
 	r        *sliceReader
